@@ -193,6 +193,12 @@ class C18(core.Check):
             for k in LIST_KEYS:
                 if r.random() < (0.5 if depth == 0 else 0.3):
                     items.append([k, ["l", [self.gen_doc(r, cls, depth + 1) for _ in range(r.randint(1, 4))]]])
+        if items and r.random() < 0.15:
+            # bookkeeping dicts as a parse with include_position / include_comments leaves them: keyed like the keywords
+            present = [k_ for k_, v_ in items if not isinstance(v_, list)]
+            if present:
+                items.append(["__position__", ["d", "plain", [[k_, ["d", "plain", [["line", 3], ["column", 5]]]] for k_ in present]]])
+                items.append(["__comments__", ["d", "plain", [[k_, "# about " + k_] for k_ in present[:2]]]])
         r.shuffle(items)
         return ["d", cls, items]
 
